@@ -65,6 +65,29 @@ def fixed_corpus():
             sd["doc"] = ctorgen.doc_text([d])
         res.append({"name": "g%03d" % (2 + i), "structs": [first, second, third], "extra_decls": [], "features": {},
                     "select": "list", "groups": [{"names": ["First", "Second", "Third"], "comment": [d]}]})
+    # the ONLY embedded fields of the run are instances of generic shoot types (value and pointer): the outer accessor
+    # interfaces embed BoxGetter[int] / PairSetter[string, T] ... of the types generated earlier in the same run
+    B, N, f = ctorgen.T_basic, ctorgen.T_named, ctorgen.fdecl
+    box = _sd("Box", [f(["v"], ("param", "T")), f(["n"], B("int"), ["//shoot: get"])])
+    box["tparams"] = [{"names": ["T"], "con": ("ident", "any")}]
+    holder = _sd("Holder", [f([], N("", "Box", [B("int")])), f(["w"], B("string"))])
+    res.append({"name": "g004", "structs": [box, holder], "extra_decls": [], "features": {}, "select": "list"})
+    pair = _sd("Pair", [f(["k"], ("param", "K"), ["//shoot: get;set"]), f(["val"], ("param", "V"))])
+    pair["tparams"] = [{"names": ["K"], "con": ("ident", "comparable")}, {"names": ["V"], "con": ("ident", "any")}]
+    outer = _sd("Outer", [f([], ("ptr", N("", "Pair", [B("string"), ("param", "T")]))), f(["o"], B("bool"), ["//shoot: set"])])
+    outer["tparams"] = [{"names": ["T"], "con": ("ident", "any")}]
+    res.append({"name": "g005", "structs": [pair, outer], "extra_decls": [], "features": {}, "select": "file"})
+    # a read-only type (multi-line field doc with a directive, accessors of named types, a declaration with exported and
+    # unexported names) processed before a type WITHOUT any doc comment, embedded by value and by pointer by TWO later
+    # types; both kinds on one type directive line
+    acc = _sd("Acc", [f(["timeout"], N("time", "Duration"), ["// the timeout of one call", "//shoot: get"]),
+                      f(["kind"], N("helper", "Kind"), ["//shoot: set", "// (write side)"]),
+                      f(["Label", "note"], B("string"))], ["// shoot: getter"])
+    plain = _sd("Plain", [f([], N("", "Acc")), f(["p"], B("int"))])
+    third = _sd("Third", [f([], ("ptr", N("", "Acc"))), f(["q"], B("bool"), ["//shoot: get"])])
+    both = _sd("Both", [f(["Owner", "memo"], B("string")), f([], N("", "Plain")), f(["r"], B("int"), ["//shoot: set"])],
+               ["// shoot: getter;setter"])
+    res.append({"name": "g006", "structs": [acc, plain, third, both], "extra_decls": [], "features": {}, "select": "list"})
     return res
 
 
@@ -618,7 +641,9 @@ def main(run):
                  "order>`, 20%% of these run twice; in ~1 of 4 packages the tool picks the types itself (`-file=<source>` or "
                  "`-type=*` with the //go:generate line in the source) on a directory without generated files -- the first two "
                  "packages are the fixed corpus Zed/Alpha and Zed/Mike/Alpha (embedded type declared first, sorting last), two "
-                 "more fixed ones carry a type-level getter / setter directive on a GROUPED declaration of three structs, the "
+                 "more fixed ones carry a type-level getter / setter directive on a GROUPED declaration of three structs, two "
+                 "embed only instances of generic shoot types (Box[int], *Pair[string, T]), one has a read-only type with "
+                 "multi-line field docs and named accessor types embedded by two later types, the "
                  "next four are generated ones of that shape (generator.tool_selected_with_embedded_sorting_after_embedder).  Per selected struct one static case (methods declared on T, method "
                  "set of *T, <T>Getter/<T>Setter: embedded / explicit / complete method set / implemented by *T) and one "
                  "executed run per (entry point NewT(sentinels) | zero value, setter of *T's method set): all leaves before "
